@@ -179,7 +179,7 @@ CLAIMED = {
        "tolerance / on different formulas, merged structure == documented strategies, listing-order independence, merge_tagged_sites.",
   note="scipy linear_sum_assignment and ase get_distances are oracles (contract = hypothesis of remap_permutation). Within-tolerance and recovery of "
        "the hidden permutation are judged numerically by the harness, not proved. Mean/concatenate strategies are outside the Coq model (python oracle). "
-       "Known finding C17-F17c (labels truncated to 25 characters). F-17a and F-17b were found by this check and repaired (fix: 23dee97, a3588cc).",
+       "F-17a, F-17b and F-17c (labels truncated to 25 characters) were found by this check and repaired (fix: 23dee97, a3588cc, f5940bf).",
   technique="Coq proof (lists/Permutation, no axioms) of a hand model with the assignment solver as a contract-checked oracle + differential correspondence + property oracles",
   design="§8 C17"),
  "C19": dict(
@@ -214,9 +214,9 @@ CLAIMED = {
        "bookkeeping, spin-1/2 masking, refusal, for 9 isotopes (spin 1/2..5/2) and 12 flag combinations.",
   note="Partial: 'centre of gravity at the isotropic value' is a numerical oracle (tolerance 0.2% of the span + half a bin), not a theorem; the Gaussian "
        "broadening paths and the second-order quadrupolar formulas are not modelled (only sum / sign / unit-independence are judged there). np.isclose(sum, 0) "
-       "is modelled as sum = 0 and float bin edges as contiguous rationals. Known findings C12-F12 (no broadening + single crystal / no orientational effect: "
-       "empty spectrum, warned by the code) and C12-F12c (octant mode with tensors off the Cartesian axes) are replayed each run; F-12b (MHz + broadened "
-       "powder) was found by this check and repaired (fix: 2723a61).",
+       "is modelled as sum = 0 and float bin edges as contiguous rationals. Known finding C12-F12c (octant mode with tensors off the Cartesian axes) is replayed each run; four defects found by this check were repaired: "
+       "F-12b MHz + broadened powder (2723a61), F-12d descending axes for negative-gamma nuclei (584cfe9), F-12 empty unbroadened single-crystal / isotropic "
+       "spectra (139cf14), and the flat-triangle loss shared with C13.",
   technique="Coq proof (Reals: telescoping tent sums, normalisation, Rayleigh bounds; Z bit-masks over generated definitions) + py2v translator + differential correspondence (vm_compute) + oracles",
   design="§8 C12"),
  "C18": dict(
@@ -261,7 +261,7 @@ CLAIMED = {
        "structure order and owner of every array row as the model evaluated by vm_compute; purity is checked by deep snapshots of operands.",
   note="Purity is definitional in the model and only tested on the code. numpy fancy indexing, pickle and ase.Atoms copying are exercised, not "
        "modelled. Sorting by an array containing padding (NaN) and row shape (1,) arrays are excluded from the generator. Known findings "
-       "C06-F06c1/F06c2 (empty-collection corner cases) are replayed each run; F-06a/F-06b were found by this check and repaired.",
+       "C06-F06c2 (concatenation with an empty collection carrying vector arrays) is replayed each run; F-06a/F-06b/F-06c1 were found by this check and repaired.",
   technique="Coq proof (invariant by induction over operation histories, no axioms) of a hand model + differential correspondence on histories",
   design="§8 C06"),
  "C03": dict(
@@ -307,7 +307,7 @@ CLAIMED = {
        "is tied to the real file-system behaviour by an exhaustive correspondence (8 target states x 4 levels x 4 answers for save; "
        "x tolerant x unreadable member for load) on a real temp directory, plus round trips.",
   note="The write phase after the first os.mkdir(path) is one abstract event (scanned syntactically for destructive calls on path). "
-       "File system, pickle and glob are exercised, not modelled beyond 8 target states. Known findings C20-F20b/F20c are replayed each run.",
+       "File system, pickle and glob are exercised, not modelled beyond 8 target states. Known finding C20-F20b is replayed each run; F-20 (declined overwrite) and F-20c (empty collection) were found by this check and repaired.",
   technique="Coq proof over a model regenerated from source (py2v) + exhaustive differential correspondence",
   design="§8 C20"),
 }
